@@ -97,3 +97,66 @@ pub fn rat(x: &Value, default: f64) -> f64 {
         _ => default,
     }
 }
+
+/// text of a token-level file description (spec/TextFormat.tla)
+pub fn render_file(src: &Value) -> String {
+    let mut out = String::new();
+    if src["bom"].as_bool().unwrap_or(false) {
+        out.push('\u{feff}');
+    }
+    let empty = vec![];
+    let lines = src["lines"].as_array().unwrap_or(&empty);
+    let mut texts: Vec<String> = vec![];
+    for ln in lines {
+        match ln["t"].as_str().unwrap_or("") {
+            "blank" => texts.push(String::new()),
+            "remark" => texts.push(format!("# {}", ln["note"].as_str().unwrap_or(""))),
+            "header" => texts.push("vector, tipo, src_dst, valores".to_string()),
+            "comp" => {
+                let c = AbsComp::from_json(&ln["c"]);
+                let pad = ln["pad"].as_bool().unwrap_or(false);
+                let omit = ln["omitId"].as_bool().unwrap_or(false);
+                let mut toks: Vec<String> = vec![];
+                if c.kind != "NEED" && !omit {
+                    toks.push(format!("{}", c.id));
+                }
+                match c.kind.as_str() {
+                    "USED" => {
+                        toks.push("CONSUMO".into());
+                        toks.push(c.srv.clone());
+                        toks.push(c.cr.clone());
+                    }
+                    "PROD" => {
+                        toks.push("PRODUCCION".into());
+                        toks.push(c.src.clone());
+                    }
+                    "AUX" => toks.push("AUX".into()),
+                    "OUT" => {
+                        toks.push("SALIDA".into());
+                        toks.push(c.srv.clone());
+                    }
+                    _ => {
+                        toks.push("DEMANDA".into());
+                        toks.push(c.srv.clone());
+                    }
+                }
+                for v in &c.v {
+                    toks.push(fmt_num(*v));
+                }
+                let sep = if pad { " \t,  " } else { "," };
+                let mut t = toks.join(sep);
+                let note = ln["note"].as_str().unwrap_or("");
+                if !note.is_empty() {
+                    t = format!("{} # {}", t, note);
+                }
+                if pad {
+                    t = format!("  \t{}  \t ", t);
+                }
+                texts.push(t);
+            }
+            _ => {}
+        }
+    }
+    out.push_str(&texts.join("\n"));
+    out
+}
